@@ -348,14 +348,21 @@ func (a *VersionedAttestation) UnmarshalSSZ(b []byte) error {
 	if err != nil {
 		// Previously a bug was introduced where validator index was not marshaled.
 		// Ensure backwards compatibility with nodes that have not yet updated to the new fixed version.
-		if !errors.Is(err, ssz.ErrOffset) {
-			return errors.Wrap(err, "unmarshal VersionedAttestation")
+		// Note the index-less form cannot be recognised by the offset word alone: bytes 16..20 of it are
+		// the low half of the attestation slot, so for slot%2^32 == 20 the first attempt gets past the
+		// offset check and fails in the inner decoder instead. Fall back on any failure.
+		var errNoIdx error
+
+		version, errNoIdx = unmarshalSSZVersioned(b, a.sszValFromVersion)
+		if errNoIdx != nil {
+			if !errors.Is(err, ssz.ErrOffset) {
+				return errors.Wrap(err, "unmarshal VersionedAttestation")
+			}
+
+			return errors.Wrap(errNoIdx, "unmarshal VersionedAttestation without validator index")
 		}
 
-		version, err = unmarshalSSZVersioned(b, a.sszValFromVersion)
-		if err != nil {
-			return errors.Wrap(err, "unmarshal VersionedAttestation without validator index")
-		}
+		valIdx = nil
 	}
 
 	a.Version = version.ToETH2()
